@@ -136,6 +136,8 @@ class FakeSock:
 
     def getpeername(self):
         self._chk()
+        if getattr(self, "dead", False):
+            raise OSError(errno.ENOTCONN, os.strerror(errno.ENOTCONN))
         if (self.broken and self.world.strict_peer) or self.ca is None:
             raise OSError(errno.ENOTCONN, os.strerror(errno.ENOTCONN))
         return self.ca
@@ -214,8 +216,9 @@ class FakeSock:
         self._chk()
         if not self.accepts:
             raise make_exc(EAGAIN)
-        ca, sends, recvs, hs = self.accepts.pop(0)
+        ca, sends, recvs, hs, *rest = self.accepts.pop(0)
         s = self.world.new(sends=sends, recvs=recvs, hs=hs, tls=self.tls, ca=ca, ha=self.ha)
+        s.dead = bool(rest and rest[0])   # the peer reset the connection before it was accepted
         return s, ca
 
 
@@ -341,8 +344,8 @@ def _make_conn(kind, sends, recvs, hs, wl, tymth, world):
 
 SITES = ["client_send", "client_recv", "clienttls_send", "clienttls_recv", "remoter_send", "remoter_recv",
          "remotertls_send", "remotertls_recv", "clienttls_hs", "remotertls_hs"]
-OUT_WB, OUT_CUT, OUT_ABORT, OUT_RAISE_OS, OUT_RAISE_OTHER = 0, 1, 2, 3, 4
-OUT_NAMES = {0: "wouldblock", 1: "cutoff", 2: "aborted", 3: "raisedOS", 4: "raisedOther"}
+OUT_WB, OUT_CUT, OUT_ABORT, OUT_RAISE_OS, OUT_RAISE_OTHER, OUT_UNEXPECTED = 0, 1, 2, 3, 4, 5
+OUT_NAMES = {0: "wouldblock", 1: "cutoff", 2: "aborted", 3: "raisedOS", 4: "raisedOther", 5: "unexpected"}
 
 
 def probe(site, code):
@@ -367,7 +370,7 @@ def _probe(site, code):
                 return OUT_ABORT
             if not obj.aborted and not obj.connected and not s.closed:
                 return OUT_WB
-            raise core.Infra(f"probe {site} {code}: unclassifiable state aborted={obj.aborted} connected={obj.connected} closed={s.closed}")
+            return OUT_UNEXPECTED   # the method neither raised nor reported one of the documented results
         mod = _SockMod(world, tls=True, ha=("127.0.0.1", 56000), client_scripts=[([], [], [("f", code)])])
         with patched(clienting, socket=mod):
             obj = TClientTls(ha=("127.0.0.1", 56000), context=shared_client_context(), certedhost="localhost")
@@ -381,7 +384,7 @@ def _probe(site, code):
             return OUT_ABORT
         if not obj.connected and not s.closed:
             return OUT_WB
-        raise core.Infra(f"probe {site} {code}: unclassifiable state connected={obj.connected} closed={s.closed}")
+        return OUT_UNEXPECTED   # the method neither raised nor reported one of the documented results
     hs = [("ok",)] if is_tls(kind) else []
     if what == "send":
         obj, s = make_conn(kind, [("f", code)], [], hs)
@@ -393,7 +396,7 @@ def _probe(site, code):
             return OUT_CUT
         if r == 0 and not obj.cutoff:
             return OUT_WB
-        raise core.Infra(f"probe {site} {code}: send returned {r!r} cutoff={obj.cutoff}")
+        return OUT_UNEXPECTED   # the method neither raised nor reported one of the documented results
     obj, s = make_conn(kind, [], [("f", code)], hs)
     try:
         r = obj.receive()
@@ -403,7 +406,7 @@ def _probe(site, code):
         return OUT_CUT
     if r is None and not obj.cutoff:
         return OUT_WB
-    raise core.Infra(f"probe {site} {code}: receive returned {r!r} cutoff={obj.cutoff}")
+    return OUT_UNEXPECTED   # the method neither raised nor reported one of the documented results
 
 
 _TABLES = None
@@ -479,6 +482,7 @@ PORT = 56000
 def run_server(case):
     """case = (tls, ops); ops:
        ("conn", ca, sends, recvs, hs)  a peer connects (queued on the listen socket)
+       ("dconn", ca)  a peer connects and resets before being accepted (getpeername() on its socket raises ENOTCONN)
        ("svc",) | ("tx", ca, bytes) | ("rm", ca) | ("close",) | ("reopen",)
     observation = tuple of (status, socks) per op, socks = per socket in creation order:
        ("listen", closed) | (where, cutoff, connected, aborted, rxbs, |txbs|, kacc, closed), where in ix|cx|gone"""
@@ -517,6 +521,10 @@ def run_server(case):
                 _, ca, sends, recvs, hs = op
                 if listeners and not listeners[-1].closed:
                     listeners[-1].accepts.append((_ca(ca), list(sends), list(recvs), list(hs)))
+                st = "ok"
+            elif k == "dconn":   # a peer connects and resets before the server accepts
+                if listeners and not listeners[-1].closed:
+                    listeners[-1].accepts.append((_ca(op[1]), [], [], [], True))
                 st = "ok"
             elif k == "svc":
                 st = _status(server.service)
@@ -797,6 +805,8 @@ def gen_server_ops(rng, tls, focus, tier="quick"):
             ops.append(("tx", rng.randrange(1, ncas + 1), gen_bytes(rng, rng.choice([0, 1, 3, 8, 20]))))
         elif r < 0.85:
             ca = rng.randrange(1, ncas + 1)   # a new peer, possibly from an address already connected
+            if rng.random() < 0.2:
+                ops.append(("dconn", rng.choice([ca, ncas + 1])))
             ops.append(mkconn(ca))
         elif focus == "life":
             k = rng.random()
@@ -1031,8 +1041,11 @@ def run_real_faults(case):
                         if ixr.rxbs:
                             ixr.tx(bytes(ixr.rxbs))
                             ixr.clearRxbs()
-            svc()
             dead = False
+            if point < 0:   # reset before the server has even accepted the connection
+                rst_close(peers[0])
+                dead = True
+            svc()
             for m in range(nmsg):
                 if m == point and not dead:
                     (rst_close if how == "rst" else _socket.socket.close)(peers[0])
@@ -1148,7 +1161,7 @@ def run_real_life(case):
                         if server.opened:
                             try:
                                 server.service()
-                            except OSError:
+                            except Exception:   # what service() raises is C10's business; here only descriptors count
                                 pass
                     elif k == "close":
                         server.close()
